@@ -96,7 +96,11 @@ def gen_precip(seed, i):
     solid, ions, lk = r.choice(P.SALTS)
     names = list(ions) + [solid]
     r.shuffle(names)
-    K = 10 ** (lk + r.uniform(-1.5, 1.5))
+    ksp = 10 ** (lk + r.uniform(-1.5, 1.5))
+    # the same physical system written as dissolution  solid = ions (K = Ksp)  or as precipitation
+    # ions = solid (K = 1/Ksp): the switching conditions of chempy branch on the side of the solid
+    orient = r.choice(["diss", "prec"])
+    K = ksp if orient == "diss" else 1.0 / ksp
     mode = r.choice(["pos", "pos", "nosolid", "onlysolid"])
     c0 = []
     for n in names:
@@ -107,7 +111,7 @@ def gen_precip(seed, i):
             v = 0.0
         c0.append(v)
     kwargs = r.choice([{}, {"rref_preserv": True, "tol": 1e-12}])
-    return {"kind": "precip", "id": "p%d" % i, "names": names, "solid": solid, "K": [K], "c0": c0,
+    return {"kind": "precip", "id": "p%d" % i, "names": names, "solid": solid, "orient": orient, "K": [K], "c0": c0,
             "kwargs": kwargs}
 
 
@@ -146,6 +150,8 @@ def _rxns_of(case):
     if case["kind"] == "precip":
         solid = case["solid"]
         ions = [s for s in P.SALTS if s[0] == solid][0][1]
+        if case.get("orient", "diss") == "prec":
+            return [(dict(ions), {solid: 1})]
         return [({solid: 1}, dict(ions))]
     return [(P.POOL_BY_TAG[t][1], P.POOL_BY_TAG[t][2]) for t in case["rxns"]]
 
@@ -195,12 +201,12 @@ def _oracle(case, x):
     rxns = _rxns_of(case)
     if case["kind"] == "precip":
         solid = case["solid"]
-        re_, pr = rxns[0]
+        ions = [s for s in P.SALTS if s[0] == solid][0][1]
         xs = x[names.index(solid)]
         ip = 1.0
-        for ion, n in pr.items():
+        for ion, n in ions.items():
             ip *= max(x[names.index(ion)], 0.0) ** n
-        ksp = case["K"][0]
+        ksp = case["K"][0] if case.get("orient", "diss") == "diss" else 1.0 / case["K"][0]
         if xs > ABSENT:
             if not (ip > 0 and abs(math.log(ip) - math.log(ksp)) <= LNQ_TOL):
                 bad.append(("precipitation", "solid present (%.3e) but ion product %.6e != Ksp %.6e" % (xs, ip, ksp)))
@@ -330,7 +336,7 @@ def run(tier, seed):
         "rule": "fixed witness of DESIGN section 9 (F-C08) + seeded homogeneous systems (water + 1..3 independent "
                 "equilibria from a pool of %d acid/base/complexation equilibria, rank S + rank B == ns, constants *10^U(-3,3), every species "
                 "log-uniform 1e-5..1e-1 M, water 55.5 M, 0..2 spectator ions) + single-salt precipitation systems "
-                "(5 salts, Ksp*10^U(-1.5,1.5), amounts 1e-3..3 M, with/without initial solid, default options and the "
+                "(5 salts, written as dissolution or as precipitation reaction, Ksp*10^U(-1.5,1.5), amounts 1e-3..3 M, with/without initial solid, default options and the "
                 "options of the repository's precipitation test); each case through root() default, NumSys=(Log,), "
                 "(Log,Lin), (Lin,) and through EqSystem.solve(); contract: success and sane => x_j >= -1e-12, "
                 "|B(x-x0)|_k <= 1e-6*sum|B_kj|(|x_j|+x0_j)+1e-12 for every element and charge, |ln Q_i - ln K_i| <= 1e-5 "
